@@ -9,22 +9,26 @@ from litex.soc.interconnect.csr import *
 from litex.soc.interconnect.csr_eventmanager import *
 from vf.core import Case   # after migen's star import (migen exports its own Case)
 
-def _mk_src(k, i):
-    return {"pulse": lambda: EventSourcePulse(name=f"e{i}"), "rise": lambda: EventSourceProcess(name=f"e{i}", edge="rising"),
-            "fall": lambda: EventSourceProcess(name=f"e{i}", edge="falling"), "level": lambda: EventSourceLevel(name=f"e{i}")}[k]()
+def _mk_src(k, nm):
+    return {"pulse": lambda: EventSourcePulse(name=nm), "rise": lambda: EventSourceProcess(name=nm, edge="rising"),
+            "fall": lambda: EventSourceProcess(name=nm, edge="falling"), "level": lambda: EventSourceLevel(name=nm)}[k]()
+def _names(n, scheme):
+    # "rev": attribute names sort in the opposite order of creation (as UART's tx/rx, or GPIO's i10 < i2): register bit
+    # positions follow creation order, whatever the names are
+    return [f"e{i}" for i in range(n)] if scheme == "nat" else [f"s{chr(ord('z') - i)}" for i in range(n)]
 
-def c_ev(kinds, busw=32):
+def c_ev(kinds, busw=32, scheme="rev"):
     class Top(Module, AutoCSR):
         def __init__(self):
             self.submodules.ev = EventManager()
             self.srcs = []
-            for i, k in enumerate(kinds):
-                s = _mk_src(k, i); setattr(self.ev, f"e{i}", s); self.srcs.append(s)
+            for (i, k), nm in zip(enumerate(kinds), _names(len(kinds), scheme)):
+                s = _mk_src(k, nm); setattr(self.ev, nm, s); self.srcs.append(s)
             self.ev.finalize()
             self.bus = csr_bus.Interface(data_width=busw, address_width=14)
             self.submodules.bank = csr_bus.CSRBank(self.ev.get_csrs(), address=0, bus=self.bus)
     d = mk(Top); n = len(kinds); ev = d.ev
-    h = HwCheck(f"EventManager({','.join(kinds)};bus{busw})", d, [s.trigger for s in d.srcs] + [d.bus.adr, d.bus.we, d.bus.re, d.bus.dat_w])
+    h = HwCheck(f"EventManager({','.join(kinds)};bus{busw};{scheme})", d, [s.trigger for s in d.srcs] + [d.bus.adr, d.bus.we, d.bus.re, d.bus.dat_w])
     trig = [h.v(s.trigger) for s in d.srcs]; pend = [h.v(s.pending) for s in d.srcs]; clear = [h.v(s.clear) for s in d.srcs]
     ptrig = [h.prev(f"trig{i}", trig[i]) for i in range(n)]
     for i, s in enumerate(d.srcs):
@@ -92,6 +96,7 @@ def cases(tier):
           Case("EventManager(pulse,rise,fall,level)", c_ev, ["pulse", "rise", "fall", "level"]),
           Case("EventManager(rise,pulse;bus8)", c_ev, ["rise", "pulse"], 8),
           Case("EventManager(fall,level,pulse)", c_ev, ["fall", "level", "pulse"]),
+          Case("EventManager(pulse,level;natural names)", c_ev, ["pulse", "level"], 32, "nat"),
           Case("SharedIRQ(2)", c_shared, 2), Case("SharedIRQ(3)", c_shared, 3)]
     if tier == "thorough":
         import itertools
